@@ -24,7 +24,10 @@ def run(tier):
         vd.add_states(t)
     vecs, st = engine.generate("closure", 3, 16, wd)
     engine.replay(vd, vecs, bdir, wd, PID, check_illformed=False)
-    return vd.finish(rule="closure bodies over small finite graphs (family 'closure' of tla/Progs0.tla: "
+    dwarf_closures(vd, os.path.join(bdir, "bin", "zwdrv"), wd)
+    return vd.finish(rule="closures over the DIE graphs of four sample files (bodies of one to three steps over child, parent, "
+                     "@AT_type, ALT of them; * and +; from every unit root and from every DIE): the yields per input are the "
+                     "reachable set computed from the one-step relation, each DIE once; closure bodies over small finite graphs (family 'closure' of tla/Progs0.tla: "
                      "1 add bounded by ?(3 ?lt), 2 div, 1 add 3 mod, dup/drop, multi-yield bodies with ALT/OR, "
                      "nested closures) up to weight 3, on a two-stack stream and a single stack; expected "
                      "reachability sets from Zw!Den (Closure); termination: the temporal property <>done under weak "
@@ -32,6 +35,61 @@ def run(tier):
                      "node, 1-2 inputs, star and plus), invariant NeverOutOfFuel on the engine model, 20 s budget per program on "
                      "the implementation",
                      exhaustive=True, extra={"family": st})
+
+BODIES = ["child", "parent", "child parent", "parent child", "(child,) child", "(child, parent)", "child child", "@AT_type",
+          "(child, @AT_type)", "@AT_type child", "child @AT_type parent", "parent parent child", "(@AT_type, parent)", "child (parent,)"]
+
+
+def dwarf_closures(vd, drv, wd):
+    """Closures over real graphs: the DIE tree and the type references of sample files (cycles through parent /
+    child, diamonds through @AT_type).  The one-step relation of every body is read off the implementation DIE by
+    DIE; the closure of it is computed here; `B*' and `B+' must yield, per input DIE, exactly the reachable DIEs,
+    each once -- and end."""
+    import collections
+    tests = os.path.join(common.REPO, "tests")
+    cmds, meta = [], []
+    for f in ("twocus", "nontrivial-types.o", "typedef.o", "enum.o"):
+        fp = os.path.join(tests, f)
+        for b in BODIES:
+            cmds.append("\t".join(["run", str(len(cmds)), "max=200000,t=60", zw.hexq("entry (|D| [D offset, [D %s offset]])" % b), fp])); meta.append((f, b, "step"))
+            for start in ("entry ?root", "entry"):
+                for sym in ("*", "+"):
+                    q = "%s (|D| [D offset, [D (%s)%s offset]])" % (start, b, sym)
+                    cmds.append("\t".join(["run", str(len(cmds)), "max=200000,t=60", zw.hexq(q), fp])); meta.append((f, b, (start, sym)))
+    res = {r.get("id"): r for r in zw.run_driver(drv, cmds, wd, tag="dwclosure", max_hangs=4)}
+    step = {}
+    for i, (f, b, kind) in enumerate(meta):
+        r = res.get(str(i)) or {}
+        if kind == "step":
+            if r.get("status") == "ok":
+                step[(f, b)] = {int(x[-1]["v"][0]["v"]): [int(y["v"]) for y in x[-1]["v"][1]["v"]] for x in r["results"]}
+            continue
+        vd.cov["evaluations"] += 1
+        rel = step.get((f, b))
+        start, sym = kind
+        key = "closure (%s)%s on %s from `%s'" % (b, sym, f, start)
+        if r.get("status") == "skipped-after-hangs":
+            continue
+        if r.get("status") != "ok":
+            vd.observe(key + ": " + str(r.get("status")), {"observed": {k: r.get(k) for k in ("status", "err")}}); continue
+        if rel is None:
+            continue
+        for x in r["results"]:
+            d = int(x[-1]["v"][0]["v"])
+            got = collections.Counter(int(y["v"]) for y in x[-1]["v"][1]["v"])
+            seen, work = set(), ([d] if sym == "*" else list(dict.fromkeys(rel.get(d, []))))
+            seen.update(work)
+            while work:
+                for n in rel.get(work.pop(), []):
+                    if n not in seen:
+                        seen.add(n); work.append(n)
+            if got != collections.Counter(seen):
+                dup = sorted(k for k, c in got.items() if c > 1)
+                vd.observe(key + ": DIE %#x: %s" % (d, "yielded twice: %s" % [hex(k) for k in dup[:5]] if dup else
+                                                    "%d yielded, %d reachable" % (len(got), len(seen))),
+                           {"missing": [hex(k) for k in sorted(seen - set(got))[:10]], "extra": [hex(k) for k in sorted(set(got) - seen)[:10]]})
+                break
+
 
 def replay(path):
     import c01
